@@ -1016,7 +1016,22 @@ def extract(path):
                 vc_args.append(sorted(st["act"]["args"].items()))
     if len(vc_args) != 1:
         raise ExtractError(f"expected exactly one verify_certificate() call in the handlers, found {len(vc_args)}")
-    cfg = ["_server_name", "_cadata", "_cafile", "_capath", "_verify_mode"]
+    # what the client OFFERS: the keyword arguments of the ClientHello it builds (locals resolved) —
+    # the option lists must be the configuration attributes themselves
+    offer = []
+    sh = methods["_client_send_hello"]
+    hellos = [x for x in ast.walk(sh) if isinstance(x, ast.Assign) and isinstance(x.value, ast.Call)
+              and dotted(x.value.func) == "ClientHello"]
+    if len(hellos) != 1:
+        raise ExtractError("_client_send_hello: expected exactly one ClientHello(..) construction")
+    sd = N.single_defs(sh)
+    for k in hellos[0].value.keywords:
+        if k.arg in ("cipher_suites", "legacy_compression_methods", "alpn_protocols", "psk_key_exchange_modes",
+                     "signature_algorithms", "supported_versions", "other_extensions"):
+            offer.append((k.arg, dotted(N.resolve(k.value, sd)).replace("\n", " ")))
+    cfg = ["_server_name", "_cadata", "_cafile", "_capath", "_verify_mode", "_cipher_suites", "_alpn_protocols",
+           "_signature_algorithms", "_supported_groups", "_supported_versions", "_legacy_compression_methods",
+           "_psk_key_exchange_modes"]
     writers = {a: [] for a in cfg}
     for name, m in methods.items():
         for x in ast.walk(m):
@@ -1030,6 +1045,11 @@ def extract(path):
             elif isinstance(x, ast.Call) and dotted(x.func) in ("setattr", "delattr") and x.args \
                     and dotted(x.args[0]) == "self":
                 bad(x, f"{name}: setattr/delattr on self hides attribute writes")
+            if isinstance(x, ast.Call) and isinstance(x.func, ast.Attribute) and x.func.attr in (
+                    "append", "insert", "extend", "remove", "pop", "clear", "sort", "reverse", "update", "__setitem__") \
+                    and isinstance(x.func.value, ast.Attribute) and dotted(x.func.value.value) == "self" \
+                    and x.func.value.attr in writers and name not in writers[x.func.value.attr]:
+                writers[x.func.value.attr].append(name)          # in-place mutation of a configuration list
             for t in tgts:
                 for leaf in ast.walk(t):
                     if isinstance(leaf, ast.Attribute) and dotted(leaf.value) == "self" and leaf.attr in writers \
@@ -1121,6 +1141,7 @@ def extract(path):
     return {
         "verify_cert_store": store_flow,
         "auth_flow": flow,
+        "client_hello_offer": offer,
         "verify_cert_args": vc_args[0], "config_writers": [[a, writers[a]] for a in cfg],
         "source": os.path.relpath(path, os.path.dirname(os.path.dirname(os.path.dirname(path)))),
         "enums": enums, "alerts": alerts, "tables": tables, "defaults": defaults, "consts": consts,
